@@ -81,7 +81,12 @@ def case(draw, chain=False):
             at.append(draw(st.sampled_from(cands)))
         else:
             tel.append(e)
-            tl.append("%s_p%d" % (e, len(tel)))
+            same = [l for l, se in zip(s["type_labels"], s["type_elements"]) if se == e]
+            if same and draw(st.integers(0, 3)) == 0:
+                # structure and pattern use the same label for differently parameterised types (both call it 'C_3')
+                tl.append(same[0])
+            else:
+                tl.append("%s_p%d" % (e, len(tel)))
             tm.append(round(ATOMIC_MASSES[e] + 0.003, 6))
             at.append(len(tel) - 1)
     r["atom_types"], r["type_elements"], r["type_labels"], r["type_masses"] = at, tel, tl, tm
